@@ -104,8 +104,12 @@ static void asanReport(const char* text) {
     size_t p = t.find("AddressSanitizer: ");
     if (p != std::string::npos) { size_t e = t.find_first_of(" \n", p + 18); kind = t.substr(p + 18, e - (p + 18)); }
     std::string site = "?";
-    size_t q = t.find("/repo/src/");
-    if (q != std::string::npos) { size_t e = t.find_first_of(" \n)", q); site = t.substr(q + 10, e - (q + 10)); size_t c2 = site.rfind(':'); size_t c1 = c2 == std::string::npos ? c2 : site.rfind(':', c2 - 1); if (c1 != std::string::npos && c1 > 0 && site.find(".hpp") < c1) site = site.substr(0, c2); }
+    size_t q = std::string::npos;
+    for (const char* dir : {"/src/algorithms/", "/src/core/", "/src/containers/", "/src/kernels/", "/src/spacial/", "/src/utils/", "/src/loader/"}) {
+        const size_t f = t.find(dir);
+        if (f != std::string::npos && f < q) q = f;
+    }
+    if (q != std::string::npos) { q -= 5; size_t e = t.find_first_of(" \n)", q + 10); site = t.substr(q + 10, e - (q + 10)); size_t c2 = site.rfind(':'); size_t c1 = c2 == std::string::npos ? c2 : site.rfind(':', c2 - 1); if (c1 != std::string::npos && c1 > 0 && site.find(".hpp") < c1) site = site.substr(0, c2); }
     g_asanReports += 1;
     if (kind == "SEGV" || kind == "ABRT" || kind == "FPE" || kind == "BUS" || kind == "ILL" || kind == "stack-overflow") {
         crashLine(("asan:" + kind + " at " + site).c_str());
@@ -129,6 +133,7 @@ static uint64_t deriveSeed(uint64_t base, uint64_t n) {
     return Prng::splitmix(x) >> 1;   // keep it positive in JSON
 }
 
+static bool g_leakSeen = false;
 static int runOne(Scenario& sc, bool always) {
     g_curSeed = sc.seed;
     g_curSub = sc.sub;
@@ -137,7 +142,8 @@ static int runOne(Scenario& sc, bool always) {
     Json r = runScenario(sc);
 #ifdef TBFSIM_ASAN
     setStage("leak-check");
-    if (__lsan_do_recoverable_leak_check()) {
+    if (!g_leakSeen && __lsan_do_recoverable_leak_check()) {
+        g_leakSeen = true;   // the recoverable check keeps reporting an old leak: this process must be replaced
         Json v = Json::object();
         v.set("cls", "asan:leak").set("site", "lsan").set("detail", "LeakSanitizer: memory still allocated and unreachable after the run").set("task", "").set("where", "run");
         Json va = r.at("viol"); va.push(v); r.set("viol", va);
@@ -217,11 +223,12 @@ int main(int argc, char** argv) {
         std::printf("START %llu %ld\n", (unsigned long long)s, n);
         std::fflush(stdout);
         Scenario sc = generate(prop, s, tier, plain);
-        for (int k = 0; k < K; ++k) {
+        for (int k = 0; k < K && !g_leakSeen; ++k) {
             applySchedule(sc, k, plain);
             runOne(sc, false);
         }
         std::printf("DONE %llu\n", (unsigned long long)s);
+        if (g_leakSeen) { std::printf("RESTART %ld\n", n); std::fflush(stdout); _exit(0); }
         std::fflush(stdout);
     }
     return 0;
